@@ -399,7 +399,7 @@ func c19Served(c *ev.Ctx, f *c19fs, nl int) {
 				ents, pages, perr = c19Page(dir.Readdir, cnt, 3*len(f.names)+10)
 				dir.Close()
 			}()
-			if out, dump := quiesce.Await(done, 120*time.Second); out != quiesce.CondMet {
+			if out, dump := quiesce.Await(done, 2*wd); out != quiesce.CondMet {
 				hang(c, out, dump, "C19:"+f.kind+":served-listing-hangs", map[string]any{"count": cnt, "msize": ms})
 				break
 			}
@@ -413,13 +413,13 @@ func c19Served(c *ev.Ctx, f *c19fs, nl int) {
 				c19Compare(c, f, "served", cnt, ents, pages, perr, wdir, fmt.Sprintf("n%d:ms%d:c%s", nl, ms, scClass(cnt, one, ms)))
 				wdir.Close()
 			}()
-			if out, dump := quiesce.Await(cmp, 120*time.Second); out != quiesce.CondMet {
+			if out, dump := quiesce.Await(cmp, 2*wd); out != quiesce.CondMet {
 				hang(c, out, dump, "C19:"+f.kind+":served-walk-hangs", nil)
 				break
 			}
 		}
 		cc.Close()
-		quiesce.Await(hd, 30*time.Second)
+		quiesce.Await(hd, wd)
 	}
 }
 
